@@ -148,13 +148,10 @@ func (intp *Interpreter) Execute(r io.Reader) error {
 	} else if err == errStop {
 		err = nil
 	}
-	if err != nil {
-		return err
-	}
-
+	// the structured comments seen so far are kept, whether or not the call fails
 	intp.DSC = append(intp.DSC, s.DSC...)
 
-	return nil
+	return err
 }
 
 func (intp *Interpreter) executeScanner(s *scanner) error {
